@@ -118,8 +118,12 @@ func c13Run(c c13Case) (opts []ndp.Option, err error, panicked any) {
 		ValidLifetime:     st.Valid,
 		PreferredLifetime: st.Preferred,
 		Epoch:             vfEpoch,
-		TimeNow:           func() time.Time { return vfEpoch },
 	}
+	// The stanza is not deprecated: nothing may count down, however the clock moves and
+	// whatever the kernel says about the addresses (a stepping clock makes any countdown
+	// that starts inside the plugin visible).
+	nclock := 0
+	p.TimeNow = func() time.Time { nclock++; return vfEpoch.Add(time.Duration(nclock) * time.Minute) }
 	in := vfIPs(c.Addrs)
 	ncall := 0
 	p.Addrs = func() ([]system.IP, error) {
@@ -136,6 +140,13 @@ func c13Run(c c13Case) (opts []ndp.Option, err error, panicked any) {
 	defer func() { panicked = recover() }()
 	ra := &ndp.RouterAdvertisement{}
 	err = p.Apply(ra)
+	if err == nil {
+		// A second build from the same plugin value gives the same options.
+		ra2 := &ndp.RouterAdvertisement{}
+		if err2 := p.Apply(ra2); err2 != nil || !reflect.DeepEqual(ra.Options, ra2.Options) {
+			return ra2.Options, fmt.Errorf("verif: second build differs (%v): %v vs %v", err2, c13Describe(ra2.Options), c13Describe(ra.Options)), nil
+		}
+	}
 	return ra.Options, err, nil
 }
 
